@@ -660,4 +660,12 @@ def replay(path):
         print("  expected=%s" % json.dumps(hit[0].get("expected", hit[0].get("detail")), default=str)[:600])
         return EXIT_VIOLATION
     print("replay %s: violation NOT reproduced on this tree (digest_match=%s)" % (path, same))
-    return EXIT_OK
+    rc = EXIT_OK
+    known = load_known()
+    for v in viols:
+        k = match_known(rp["property"], v, known)
+        print("  a different violation occurs: signature=%s %s" % (engine.signature(v), "known finding " + str(k.get("id")) if k else "NOT a known finding"))
+        if k is None:
+            print("VIOLATION property=%s replay=%s" % (rp["property"], path))
+            rc = EXIT_VIOLATION
+    return rc
